@@ -19,7 +19,7 @@ LEVEL_TEXT = ("For each of the 16 operation variants and each step of its exchan
               "generic responses must report success iff the last reply was non-empty; an empty login reply must make state "
               "queries and all type-2 operations raise RuntimeError with exactly one frame on the wire. The prefix x step grid "
               "is enumerated completely; garbage is sampled.")
-RULE = ("case = (operation, step of the exchange, fault reply); fault alphabet {EOF, prefix of length 1..len-1, pattern bytes "
+RULE = ("case = (operation, step of the exchange, fault reply); fault alphabet {EOF, one empty read while the stream goes on, prefix of length 1..len-1, pattern bytes "
         "of length 1..1024, single corrupted field}; non-trivial = fault other than EOF, or EOF at a step > 1; distinct by "
         "(kind, step, fault).")
 ASSUMPTIONS = [
@@ -68,7 +68,7 @@ def reply_kind(kind, step):
 
 def apply_fault(valid, fault, rk):
     t = fault["type"]
-    if t == "eof":
+    if t in ("eof", "empty-read"):
         return None
     if t == "prefix":
         return valid[:fault["n"]]
@@ -91,7 +91,23 @@ async def exchange(case):
         script = ops.good_script(kind, a, case.get("session", "0a0b0c0d"), salt=case.get("salt", 1))
         rk = reply_kind(kind, step)
         data = apply_fault(script[step]["data"], case["fault"], rk)
-        script[step] = {"eof": True} if data is None else {"data": data}
+        transient = case["fault"]["type"] == "empty-read"
+        if transient:
+            # one read() yields b'' while the stream goes on (the unit tests' notion of an empty reply); injected by
+            # wrapping the instance's reader, skipped when that private attribute is not reachable
+            rd = getattr(cl.api, "_reader", None)
+            if rd is None or not hasattr(rd, "read"):
+                return "skip", None, [], [], None
+            orig, count = rd.read, [0]
+
+            async def read(n=-1):
+                got = await orig(n)
+                i = count[0]
+                count[0] += 1
+                return b"" if i == step else got
+            rd.read = read
+        else:
+            script[step] = {"eof": True} if data is None else {"data": data}
         dev.set_script(script)
         status, res = await cl.call(kind, a)
         sent = list(cl.conn.sent)
@@ -103,7 +119,11 @@ async def exchange(case):
 def body(rep, case, sub=None):
     kind, step, fault = case["kind"], case["step"], case["fault"]
     status, res, frames, sent, data = net.run(exchange(case))
-    eof = fault["type"] == "eof"
+    if status == "skip":
+        rep.label("reader-not-accessible-skipped")
+        return
+    transient = fault["type"] == "empty-read"
+    eof = fault["type"] in ("eof", "empty-read")
     nt = (not eof) or step > 0
     rep.tick(sub or f"{fault['type']}", key=(kind, step, fault), nontrivial=nt, sample=case,
              labels=(f"fault={fault['type']}", f"step={step}", f"op={kind}"))
@@ -113,7 +133,12 @@ def body(rep, case, sub=None):
     exc = res if status == "raise" else None
     any_empty = eof
     # replies the client actually consumed last: after an EOF every later read is empty as well
-    if eof:
+    if transient:
+        last_step = nsteps(kind) - 1
+        # the call's last read is empty only if the fault sits on the last step it reaches
+        last_nonempty = step != last_step
+        any_empty = True
+    elif eof:
         last_nonempty = False
     else:
         last = sent[-1] if sent else b""
@@ -184,6 +209,7 @@ def cases_grid(tier):
             script = ops.good_script(kind, a, "0a0b0c0d", salt=1)
             for step in range(nsteps(kind)):
                 out.append({"kind": kind, "args": a, "step": step, "fault": {"type": "eof"}})
+                out.append({"kind": kind, "args": a, "step": step, "fault": {"type": "empty-read"}})
                 rk = reply_kind(kind, step)
                 n = len(script[step]["data"])
                 if tier == "thorough" or kind in STATE_QUERIES or kind in ("control_on", "stop", "breeze_command_swing", "get_schedules"):
@@ -204,6 +230,7 @@ def strat_garbage():
         fault = st.one_of(
             st.tuples(lens, st.integers(0, 10 ** 9)).map(lambda t: {"type": "pattern", "len": t[0], "seed": t[1]}),
             st.just({"type": "eof"}),
+            st.just({"type": "empty-read"}),
             st.integers(0, 5).map(lambda i: {"type": "corrupt", "index": i}),
         )
         return st.builds(lambda a, step, f, salt, sess: _fit({"kind": kind, "args": a, "step": step, "fault": f, "salt": salt, "session": sess}),
